@@ -30,8 +30,9 @@ from .c09 import write_cfg
 GRAMMARS = {
     "g1": 'r = { ASCII_HEX_DIGIT+ ~ ("x" | "yy" | "zz") ~ (NEWLINE | ASCII_ALPHA_UPPER)? }\nWHITESPACE = _{ " " | "\\t" }\n',
     "g2": 'r = { x ~ PUSH("b" | ASCII_DIGIT) ~ (POP ~ ASCII_HEX_DIGIT | PEEK ~ "c") ~ h* ~ EOI }\nx = @{ (!("b" | "9" | "#") ~ ANY)* }\nh = @{ ASCII_HEX_DIGIT{2} }\nCOMMENT = _{ "#" }\n',
-    # sep has the same alternatives as g1's WHITESPACE (there fused into the repeated SKIP rule, here matched once)
-    "g3": 'r = { s ~ ("," ~ sep? ~ s)* ~ !ANY }\ns = ${ #t = w | (ASCII_DIGIT | "_")+ }\nw = { ASCII_ALPHA+ }\nsep = { " " | "\\t" }\n',
+    # sep has the same alternatives as g1's WHITESPACE (there fused into the repeated SKIP rule, here matched once); the failing
+    # case records a positive and then a negative label (!" ") at one furthest position (label containers shared between failures)
+    "g3": 'r = { s ~ ("," ~ sep? ~ (s | !" " ~ "-"))* ~ !ANY }\ns = ${ #t = w | (ASCII_DIGIT | "_")+ }\nw = { ASCII_ALPHA+ }\nsep = { " " | "\\t" }\n',
 }
 CASES = {
     "g1": {"ok": ("r", "a f 09 yy A", 0), "fail": ("r", "a f 09 yz", 0)},
